@@ -83,7 +83,21 @@ fn judge(s: &Scratch, rtxn: &heed::RoTxn, sc: &Scenario, model: &BTreeMap<u32, V
                 return Err(("ST/reader-n-items".into(), format!("n_items = {}, stored {n}", reader.n_items())));
             }
             let ids: Vec<u32> = model.keys().copied().collect();
-            let picks: Vec<u32> = [0usize, n / 3, n / 2, n.saturating_sub(1)].iter().filter(|i| **i < n).map(|i| ids[*i]).collect();
+            let mut picks: Vec<u32> = [0usize, n / 3, n / 2, n.saturating_sub(1)].iter().filter(|i| **i < n).map(|i| ids[*i]).collect();
+            // the special items themselves are queried too: the first two holding +inf, -inf, a NaN, and an all-zero vector
+            // (inf - inf and 0 * inf are where arithmetic NaNs, of either sign, come from)
+            let is = |v: &Vec<u32>, f: &dyn Fn(f32) -> bool| v.iter().any(|b| f(f32::from_bits(*b)));
+            let kinds: [&dyn Fn(&Vec<u32>) -> bool; 4] = [
+                &|v| is(v, &|x| x == f32::INFINITY),
+                &|v| is(v, &|x| x == f32::NEG_INFINITY),
+                &|v| is(v, &|x| x.is_nan()),
+                &|v| v.iter().all(|b| f32::from_bits(*b) == 0.0),
+            ];
+            for kind in kinds {
+                picks.extend(model.iter().filter(|(_, v)| kind(v)).map(|(id, _)| *id).take(2));
+            }
+            picks.sort();
+            picks.dedup();
             let filter: roaring::RoaringBitmap = ids.iter().copied().step_by(3).collect();
             for id in picks {
                 let q = &model[&id];
@@ -349,7 +363,7 @@ pub fn c14(tier: Tier) -> i32 {
                             let items: Vec<(u32, Vec<u32>)> = (0..n).map(|i| (i as u32, lattice_vec(dim, i, 1))).collect();
                             let leaf = 1 + 4 + 4 * dim;
                             let total = n * leaf;
-                            let mut memories: Vec<Option<usize>> = vec![None, Some(0), Some(3 * page), Some(total / 2), Some(1 << 30)];
+                            let mut memories: Vec<Option<usize>> = vec![None, Some(0), Some(3 * page), Some(total / 2), Some(1 << 30), Some(usize::MAX)];
                             if tier == Tier::Thorough {
                                 memories.extend([Some(page), Some(total), Some(2 * total / 3), Some(16 * page)]);
                             }
